@@ -87,7 +87,7 @@ Compare(i, j) ==
   /\ Op /\ i \in DOMAIN heap /\ j \in DOMAIN heap
   /\ heap' = heap
   /\ LET e == IF Bug = "eq_ignores_class" THEN heap[i].val = heap[j].val ELSE SameValue(heap[i], heap[j]) IN
-     obs' = O(<<"eq", e, e, ~e, ~e>>)
+     obs' = O(<<"eq", e, e, ~e, ~e, i, j>>)
 
 Next == \/ \E c \in Classes, v \in 0..2 : Construct(c, v)
         \/ \E i \in Ids : \/ \E how \in {"set_existing", "set_new", "del_existing", "del_new"} : Poke(i, how)
@@ -113,6 +113,7 @@ DerivedRight ==
            /\ (obs'.res[1] \in {"copy", "deepcopy"} => heap'[Len(heap')].val = heap[i].val)]_vars
 (* C04: equality is an equivalence that holds exactly when classes and attribute values are the same *)
 EqExact == obs.res[1] = "eq" => (obs.res[2] = obs.res[3] /\ obs.res[4] = ~obs.res[2] /\ obs.res[5] = ~obs.res[2])
+EqTruth == obs.res[1] = "eq" => (obs.res[2] <=> SameValue(heap[obs.res[6]], heap[obs.res[7]]))
 EqReflexive == \A i \in DOMAIN heap : SameValue(heap[i], heap[i])
 EqTransitive == \A i, j, k \in DOMAIN heap :
                   (SameValue(heap[i], heap[j]) /\ SameValue(heap[j], heap[k])) => SameValue(heap[i], heap[k])
